@@ -379,6 +379,10 @@ def _arith(op, a, b):
         raise Unsupported("power with a non-constant exponent")
     if both_int:
         x, y = _int(a), _int(b)
+        if isinstance(op, (ast.FloorDiv, ast.Mod)):
+            if not (isinstance(b, int) and b > 0):
+                raise Unsupported("// and % with a divisor that is not a positive integer constant")
+            return x / y if isinstance(op, ast.FloorDiv) else x % y  # z3's integer division is the floor for a positive divisor
         if isinstance(op, ast.Add):
             return x + y
         if isinstance(op, ast.Sub):
